@@ -103,8 +103,10 @@ def build(seq, names=NAMES, probe_kinds=None):
             if vis == "typedef" and len(scopes) > 1:
                 st["shadow"] = True
             forms = {
-                "obj": ["int {n};", "int {n};", "int ({n});", "extern int {n};"] if not in_func else ["int {n};", "int {n}[2];", "int ({n});", "int xo{f}, {n};"],
-                "objp": ["int *{n} = 0;", "int {n} = 1;", "int *{n}[2] = {{ 0 }};", "char {n} = 'c';"],
+                "obj": ["int {n};", "int {n};", "int ({n});", "extern int {n};", "_Atomic(int) *{n};", "const unsigned long long {n};", "_Alignas(8) int {n};", "struct so{f} {{ int a; }} {n};"]
+                if not in_func
+                else ["int {n};", "int {n}[2];", "int ({n});", "int xo{f}, {n};", "_Atomic(int) {n}[2];", "static volatile int {n};", "_Atomic(int) xa{f} = 1, {n};", "enum eo{f} {{ eo{f}a }} *{n};"],
+                "objp": ["int *{n} = 0;", "int {n} = 1;", "int *{n}[2] = {{ 0 }};", "char {n} = 'c';", "_Atomic(int) {n} = 1;", "_Atomic(long) (*{n})(void) = 0;", "const _Atomic(int) {n} = 2, ya{f};", "_Alignas(int) _Atomic(int) {n} = 3;"],
                 "fn": ["int {n}(void);", "int *{n}(int);", "int ({n})(void);", "void {n}();"],
             }[ev]
             out.append(forms[v % len(forms)].format(n=n, f=f))
